@@ -6,7 +6,7 @@ RULE = ('SCC streams in pop-on, roll-up and paint-on mode (and mixtures) whose r
         'characters with the lengths concentrated on 31/32/33/40; pop-on and paint-on captions use adjacent '
         'rows (several lines in one caption) and non-adjacent rows (several captions sharing a start), so '
         'that the long line is first / middle / last of a same-start group. Rows may begin with one or two blanks (cells of the row) and end with one to three blanks (the reader '
-        'removes blanks at the end of every line, so they are not part of it). '
+        'removes blanks at the end of every line, so they are not part of it). In three streams of ten, rows also carry erased cells (a letter typed twice with the second taken back by Backspace; an extended character whose stand-in repeats the letter in front of it): the line is what is left on the screen. '
         'Reads use the defaults or lang= / simulate_roll_up=True / offset=0 (with simulate_roll_up the reader '
         'joins the visible roll-up rows into one line: then only "no line over 32 is returned" and "a refusal '
         'names lines over 32" are demanded). A row is addressed once per load '
@@ -21,7 +21,7 @@ REQUIRE = {'streams_with_long_row': 50, 'streams_without_long_row': 50, 'long_ro
            'mode_pop': 20, 'two_long_rows_same_start': 5, 'streams_with_empty_row': 30,
            'rows_of_32_or_more_cells_with_leading_blanks': 20,
            'rows_over_32_cells_only_through_trailing_blanks': 20,
-           'reads_with_option_lang': 50, 'reads_with_option_simulate_roll_up': 50}
+           'streams_with_erased_cells': 100, 'reads_with_option_lang': 50, 'reads_with_option_simulate_roll_up': 50}
 
 LENGTHS = [0, 0, 1, 5, 12, 20, 28, 31, 32, 32, 32, 33, 33, 34, 40]
 
@@ -40,7 +40,9 @@ def cases(ctx):
             kw['simulate_roll_up'] = True
         if rng.random() < 0.1:
             kw['offset'] = 0
-        yield {'stream': G.gen_stream(rng, modes=modes, lengths=lengths, tagged=True, trailing=True), 'read_kwargs': kw}
+        edits = rng.random() < 0.3
+        yield {'stream': G.gen_stream(rng, modes=modes, lengths=lengths, tagged=True, trailing=True, edits=edits),
+               'read_kwargs': kw}
 
 
 def _len(row):
@@ -65,6 +67,18 @@ def _groups(st):
     return out
 
 
+def _all_rows(st):
+    for seg in st['segments']:
+        if seg['mode'] == 'roll':
+            yield from seg['rows']
+        elif seg['mode'] == 'paint':
+            for ln in seg['lines']:
+                yield from ln['rows']
+        else:
+            for cap in seg['captions']:
+                yield from cap['rows']
+
+
 def nontrivial(case):
     return any(len(g) >= 2 or any(n >= 32 for n in g) for g in _groups(case['stream']))
 
@@ -80,6 +94,8 @@ def check(case, ctx):
     long_rows = [r.rstrip(' ') for r in rows if _len(r) > 32]
     if any(r.endswith(' ') and len(r) > 32 >= _len(r) for r in rows):
         ctx.count('rows_over_32_cells_only_through_trailing_blanks')
+    if any(it[0] in ('bs', 'ext') for r in _all_rows(st) for it in r['items']):
+        ctx.count('streams_with_erased_cells')
     if any(len(r) == 0 for r in rows):
         ctx.count('streams_with_empty_row')
     if any(r.startswith(' ') and len(r) >= 32 for r in rows):
